@@ -369,12 +369,14 @@ func (index *uniqueIndex) CheckIntegrity(ctx MutateContext, fix bool, errorSink 
 	indexBucket := index.getIndexBucket(tx)
 	cursor := indexBucket.Cursor()
 	store := index.symbol.GetStore()
-	for key, val := cursor.First(); key != nil; key, val = cursor.Next() {
+	for key, val := cursor.First(); key != nil; {
+		deleted := false
 		if !store.IsEntityPresent(tx, string(val)) {
 			if fix {
 				if err := cursor.Delete(); err != nil {
 					return err
 				}
+				deleted = true
 			}
 			errorSink(errors.Errorf("unique index %v.%v references %v for value %v, which doesn't exist",
 				store.GetEntityType(), index.symbol.GetName(), string(val), string(key)), fix)
@@ -387,12 +389,14 @@ func (index *uniqueIndex) CheckIntegrity(ctx MutateContext, fix bool, errorSink 
 					if err := cursor.Delete(); err != nil {
 						return err
 					}
+					deleted = true
 				}
 
 				errorSink(errors.Errorf("unique index %v.%v references %v for value %v which should be %v",
 					store.GetEntityType(), index.symbol.GetName(), string(val), string(key), string(fieldVal)), fix)
 			}
 		}
+		key, val = nextAfterOptionalDelete(cursor, key, deleted)
 	}
 
 	for entityCursor := index.symbol.GetStore().IterateValidIds(tx, ast.BoolNodeTrue); entityCursor.IsValid(); entityCursor.Next() {
@@ -606,12 +610,14 @@ func (index *setIndex) CheckIntegrity(ctx MutateContext, fix bool, errorSink fun
 	if indexBaseBucket := Path(tx, index.indexPath...); indexBaseBucket != nil {
 		var toDelete []string
 		cursor := indexBaseBucket.Cursor()
-		for key, _ := cursor.First(); key != nil; key, _ = cursor.Next() {
+		for key, _ := cursor.First(); key != nil; {
+			deleted := false
 			hadRefs := false
 			if indexBucket := indexBaseBucket.Bucket.Bucket(key); indexBucket != nil {
 				idsCursor := indexBucket.Cursor()
 				referenceCount := 0
-				for val, _ := idsCursor.First(); val != nil; val, _ = idsCursor.Next() {
+				for val, _ := idsCursor.First(); val != nil; {
+					deleted := false
 					hadRefs = true
 					referenceCount++
 					_, id := GetTypeAndValue(val)
@@ -621,6 +627,7 @@ func (index *setIndex) CheckIntegrity(ctx MutateContext, fix bool, errorSink fun
 							if err := idsCursor.Delete(); err != nil {
 								return err
 							}
+							deleted = true
 							referenceCount--
 						}
 						errorSink(errors.Errorf("for index on %v.%v, val %v references id %v, which doesn't exist",
@@ -641,6 +648,7 @@ func (index *setIndex) CheckIntegrity(ctx MutateContext, fix bool, errorSink fun
 								if err := idsCursor.Delete(); err != nil {
 									return err
 								}
+								deleted = true
 								referenceCount--
 							}
 							errorSink(errors.Errorf("for index on %v.%v, val %v references id %v, which doesn't contain the value",
@@ -648,6 +656,7 @@ func (index *setIndex) CheckIntegrity(ctx MutateContext, fix bool, errorSink fun
 								string(key), string(id)), fix)
 						}
 					}
+					val, _ = nextAfterOptionalDelete(idsCursor, val, deleted)
 				}
 				if referenceCount == 0 {
 					if fix {
@@ -664,10 +673,12 @@ func (index *setIndex) CheckIntegrity(ctx MutateContext, fix bool, errorSink fun
 					if err := cursor.Delete(); err != nil {
 						return err
 					}
+					deleted = true
 				}
 				errorSink(errors.Errorf("for index on %s.%s, key %s is not an index bucket",
 					index.symbol.GetStore().GetEntityType(), index.GetSymbol().GetName(), string(key)), fix)
 			}
+			key, _ = nextAfterOptionalDelete(cursor, key, deleted)
 		}
 
 		for _, deleteKey := range toDelete {
@@ -1062,6 +1073,16 @@ func (index *fkDeleteCascadeConstraint) ProcessBeforeDelete(ctx *IndexingContext
 			}
 		}
 	}
+}
+
+// nextAfterOptionalDelete advances cursor from the row with the given key. If that row has just been deleted through
+// the cursor, bbolt's Cursor.Next can skip the following row (when the bucket had already been modified in this
+// transaction), so the cursor is re-positioned with Seek instead, which lands on the first remaining key after it.
+func nextAfterOptionalDelete(cursor *bbolt.Cursor, key []byte, deleted bool) ([]byte, []byte) {
+	if deleted {
+		return cursor.Seek(key)
+	}
+	return cursor.Next()
 }
 
 type cascadeDeletesKey struct{}
